@@ -26,6 +26,7 @@ package maven
 
 //@ func (*Ecosystem).NewVersion
 //@   ensures xor: (result0 != nil) == (result1 == nil)
+//@   ensures wf: result1 == nil ==> wfElems(result0.elements)
 
 //@ func (*Ecosystem).NewVersionRange
 //@   ensures xor: (result0 != nil) == (result1 == nil)
@@ -38,3 +39,21 @@ package maven
 //@   ensures lower-excl: constraint.isLower && !constraint.inclusive ==> result == (version.Compare(constraint.version) > 0)     [C02 C05 C20]
 //@   ensures upper-incl: !constraint.isLower && constraint.inclusive ==> result == (version.Compare(constraint.version) <= 0)    [C02 C05 C20]
 //@   ensures upper-excl: !constraint.isLower && !constraint.inclusive ==> result == (version.Compare(constraint.version) < 0)    [C02 C05 C20]
+
+//@ func isNullElement
+//@   requires e.isNumber ==> isnum(e.value)
+//@   requires !e.isNumber ==> isstr(e.value)
+
+//@ spec wfRange(vr *VersionRange) bool = forall i int :: 0 <= i && i < len(vr.constraints) ==> vr.constraints[i].version != nil && wfElems(vr.constraints[i].version.elements)
+
+//@ func (*VersionRange).Contains
+//@   requires wfRange(vr) && wfElems(version.elements)
+
+//@ func trimTrailingNulls
+//@   requires wfElems(elements)
+//@   loop 1 invariant wfElems(elements)
+//@   ensures wf: wfElems(result)
+
+//@ func parseVersionString
+//@   loop 1 invariant wfElems(elements)
+//@   ensures wf: wfElems(result)
